@@ -53,7 +53,7 @@ def parseRangeOut (toks : List String) : Option C10.Out :=
     some ⟨if t == "-" then none else some t, (← c.toNat?), (← parsePairs idx)⟩
   | _ => none
 
-def handle (op : String) (args : List String) (impl : Option (List String)) : String × Option Bool :=
+partial def handle (op : String) (args : List String) (impl : Option (List String)) : String × Option Bool :=
   match op, args with
   | "CI_ENC", [v] =>
     match v.toNat? with
@@ -83,6 +83,7 @@ def handle (op : String) (args : List String) (impl : Option (List String)) : St
       let pv := impl.bind parseRes |>.map (C20.c20_dec_ok bs pos maxLen (2^31))
       (showRes r, if impl.isSome && pv.isNone then some false else pv)
     | _, _, _ => ("BADOP", none)
+  | "RANGE", [h, cs, lim, _earlier] => handle "RANGE" [h, cs, lim] impl    -- marks at an earlier request on the context: no part of the model
   | "RANGE", [h, cs, lim] =>
     match h.toNat?, parseChunks cs, lim.toInt? with
     | some hdr, some chunks, some limit =>
@@ -354,7 +355,7 @@ def parseSched (s : String) : Option (List IoFault.Fault) :=
 def firedCount (sch rest : List IoFault.Fault) : Nat :=
   ((sch.take (sch.length - rest.length)).filter (· != IoFault.Fault.ok)).length
 
-def handleIO (op : String) (args : List String) (impl : Option (List String)) : IO (String × Option Bool) := do
+partial def handleIO (op : String) (args : List String) (impl : Option (List String)) : IO (String × Option Bool) := do
   match op, args with
   | "OPEN", [path, t, d, n, order, vl] =>
     let f ← readFile path
@@ -387,6 +388,30 @@ def handleIO (op : String) (args : List String) (impl : Option (List String)) : 
       let pv := impl.map fun i => PredHdr.c06_ok Sha.zckHash g (i == ["OK"])
       return (out, pv)
     | _, _ => return ("BADOP", none)
+  | "OPENRESET", [path, t, d1, d2] =>     -- the digest pin set twice; a refused second value must not remove the first
+    let f ← readFile path
+    match t.toInt?, parseHex d1, (if d2 == "e" then some [] else parseHex d2) with
+    | some t, some d1, some d2 =>
+      match Pin.setType {} t with
+      | none => return ("ERR opt_type r2=0", impl.map fun i => i == ["ERR", "opt_type", "r2=0"])
+      | some p1 =>
+        match Pin.setDigest p1 d1 with
+        | none => return ("ERR opt_digest r2=0", impl.map fun i => i == ["ERR", "opt_digest", "r2=0"])
+        | some p2 =>
+          let second := Pin.setDigest p2 d2
+          -- a refused value is a fatal error on the context: zck_clear_error declines, nothing can be opened through it any more
+          let out := match second with
+            | none => "ERR lead r2=0"
+            | some p3 => match Header.readLead p3 f with
+              | .ok l => (match Header.readHeader Sha.zckHash f l with | .ok _ => "OK r2=1" | _ => "ERR header r2=1")
+              | _ => "ERR lead r2=1"
+          -- C07: whatever opens carries the checksum of the pin in force (the last one the setter accepted)
+          let eff := if second.isSome then d2 else d1
+          let pv := impl.map fun i => match i with
+            | "OK" :: _ => PredHdr.pinsMatch f (some t) (some eff) none && (Format.parse Sha.zckHash f).isSome
+            | _ => true
+          return (out, pv)
+    | _, _, _ => return ("BADOP", none)
   | "PINSWAP", [pathA, pathB, t, d, n, mode] =>   -- what the context saw before (file A) does not enter the verdict on file B
     let fa ← readFile pathA
     let fb ← readFile pathB
